@@ -8,6 +8,7 @@ EXTENDS Accumulator, Json
 CONSTANTS N, Alphabet, MaxChunk, TargetName, Fit, Emit
 Target == IF TargetName = "pair" THEN [k |-> "tuple", ts |-> <<[k |-> "u8"], [k |-> "bool"]>>]
           ELSE IF TargetName = "bytes" THEN [k |-> "bytes"]
+          ELSE IF TargetName = "unit" THEN [k |-> "unit"]          \* a type whose encoding is empty: the bare sentinel is a valid frame
           ELSE [k |-> "u16"]
 VARIABLES buf, window, seg, segOver
 vars == <<buf, window, seg, segOver>>
